@@ -6,9 +6,9 @@ package harness
 
 import (
 	"encoding/binary"
-	"os"
 	"errors"
 	"fmt"
+	"os"
 	"strconv"
 
 	"github.com/onflow/atree"
@@ -40,58 +40,58 @@ type Op struct {
 
 // RootSpec describes an initial root container.
 type RootSpec struct {
-	K    string   `json:"k"`              // arr, map, cmap
-	Addr uint64   `json:"addr"`           // 0 = temporary address
-	TI   uint64   `json:"ti,omitempty"`   // type number
-	Dig  *DigSpec `json:"dig,omitempty"`  // maps: generated digester (nil = default)
+	K    string   `json:"k"`             // arr, map, cmap
+	Addr uint64   `json:"addr"`          // 0 = temporary address
+	TI   uint64   `json:"ti,omitempty"`  // type number
+	Dig  *DigSpec `json:"dig,omitempty"` // maps: generated digester (nil = default)
 }
 
 // Config is the per-case configuration.
 type Config struct {
-	Slab      uint32     `json:"slab"`
-	CollLimit uint32     `json:"coll_limit,omitempty"` // 0 => library default (255) unless CollLimitSet
-	CollSet   bool       `json:"coll_set,omitempty"`
-	Keys      int        `json:"keys,omitempty"` // key universe size
-	Roots     []RootSpec `json:"roots"`
-	NondetCommit bool    `json:"nondet_commit,omitempty"`
-	Workers   int        `json:"workers,omitempty"`
-	HipGroups int        `json:"hip_groups,omitempty"` // >0: keys collide at the first level of the DEFAULT digester (see Callbacks.Groups)
-	LedgerAPI bool       `json:"ledger_api,omitempty"` // the storage reaches the registers through atree.LedgerBaseStorage
-	AllowF4   bool       `json:"allow_known_f4,omitempty"` // replay of known finding F4 only: do not exclude it by construction
-	KeepGlobals bool     `json:"-"` // C16: globals were set once before the goroutines started
+	Slab         uint32     `json:"slab"`
+	CollLimit    uint32     `json:"coll_limit,omitempty"` // 0 => library default (255) unless CollLimitSet
+	CollSet      bool       `json:"coll_set,omitempty"`
+	Keys         int        `json:"keys,omitempty"` // key universe size
+	Roots        []RootSpec `json:"roots"`
+	NondetCommit bool       `json:"nondet_commit,omitempty"`
+	Workers      int        `json:"workers,omitempty"`
+	HipGroups    int        `json:"hip_groups,omitempty"`     // >0: keys collide at the first level of the DEFAULT digester (see Callbacks.Groups)
+	LedgerAPI    bool       `json:"ledger_api,omitempty"`     // the storage reaches the registers through atree.LedgerBaseStorage
+	AllowF4      bool       `json:"allow_known_f4,omitempty"` // replay of known finding F4 only: do not exclude it by construction
+	KeepGlobals  bool       `json:"-"`                        // C16: globals were set once before the goroutines started
 }
 
 // Case is the replay unit.
 type Case struct {
-	Prop string `json:"prop"`
-	Cfg  Config `json:"cfg"`
-	Ops  []Op   `json:"ops"`
-	Noise []Op  `json:"noise,omitempty"` // C18: requests that must be rejected, interleaved with Ops
-	Note string `json:"note,omitempty"`
+	Prop  string `json:"prop"`
+	Cfg   Config `json:"cfg"`
+	Ops   []Op   `json:"ops"`
+	Noise []Op   `json:"noise,omitempty"` // C18: requests that must be rejected, interleaved with Ops
+	Note  string `json:"note,omitempty"`
 }
 
 // Oracles selects what is checked while interpreting.
 type Oracles struct {
-	CmpEvery     int  // full model comparison every k steps (0 = only at the end)
-	OpResults    bool // compare per-op results (always cheap; on by default via NewEngine)
-	Verify       bool // in-repo VerifyArray/VerifyMap on every root after each step
-	VerifySer    bool // in-repo Verify*Serialization at commits
-	Tree         bool // independent structural oracle (C05) after each step
-	Sizes        bool // reported size == written bytes (C06) after each step
-	RoundTrip    bool // encode/decode/flags (C07) at commits and every step on live slabs
-	Health       bool // leak / dangling / double ownership (C09) after each step
-	Inline       bool // inline rule + stable identifiers (C10) after each step
-	FreshAtCommit bool // at each commit: fresh storage over the ledger equals the model (C03)
+	CmpEvery              int  // full model comparison every k steps (0 = only at the end)
+	OpResults             bool // compare per-op results (always cheap; on by default via NewEngine)
+	Verify                bool // in-repo VerifyArray/VerifyMap on every root after each step
+	VerifySer             bool // in-repo Verify*Serialization at commits
+	Tree                  bool // independent structural oracle (C05) after each step
+	Sizes                 bool // reported size == written bytes (C06) after each step
+	RoundTrip             bool // encode/decode/flags (C07) at commits and every step on live slabs
+	Health                bool // leak / dangling / double ownership (C09) after each step
+	Inline                bool // inline rule + stable identifiers (C10) after each step
+	FreshAtCommit         bool // at each commit: fresh storage over the ledger equals the model (C03)
 	NoWriteBetweenCommits bool // C03
-	CrashEvery   int  // crash-point check every k steps (C03); 0 = off
-	Iter         bool // iterator battery (C13) every CmpEvery steps
-	CheckHandles bool // compare the view through every live handle too
-	QuietAfterEvict bool // no whole-state oracle (which would load every slab) between an eviction and the next commit
-	BlindDispose bool // C09: handed-back large values are sometimes removed by identifier without loading them
-	PopOrder     bool // C13: map PopIterate yields the reverse of the canonical order
-	Isolation    bool // C11: ops on detached containers leave every other tree byte-identical
-	EveryStep    func(e *Engine) error
-	AtCommit     func(e *Engine) error
+	CrashEvery            int  // crash-point check every k steps (C03); 0 = off
+	Iter                  bool // iterator battery (C13) every CmpEvery steps
+	CheckHandles          bool // compare the view through every live handle too
+	QuietAfterEvict       bool // no whole-state oracle (which would load every slab) between an eviction and the next commit
+	BlindDispose          bool // C09: handed-back large values are sometimes removed by identifier without loading them
+	PopOrder              bool // C13: map PopIterate yields the reverse of the canonical order
+	Isolation             bool // C11: ops on detached containers leave every other tree byte-identical
+	EveryStep             func(e *Engine) error
+	AtCommit              func(e *Engine) error
 }
 
 // Violation is a property violation found by the engine.
@@ -118,21 +118,21 @@ type Engine struct {
 	Roots []*Node
 	Stats *CaseStats
 
-	nextNode   int
-	quiet      bool
-	plainMaps  int // nested plain maps created so far (see excludeF4)
-	step       int
-	curOp      *Op
-	commitLog  int                      // len(L.Log) right after the last commit
-	commitRegs map[atree.SlabID][]byte  // ledger snapshot at the last commit
+	nextNode    int
+	quiet       bool
+	plainMaps   int // nested plain maps created so far (see excludeF4)
+	step        int
+	curOp       *Op
+	commitLog   int                     // len(L.Log) right after the last commit
+	commitRegs  map[atree.SlabID][]byte // ledger snapshot at the last commit
 	commitModel []*Node                 // deep copy of root models at the last commit
-	commits    int
-	trace      []string
-	keyCache   map[uint64]MV
+	commits     int
+	trace       []string
+	keyCache    map[uint64]MV
 	// results of ops, for differentials (C08/C18)
-	Results []string
-	RecordResults bool
-	DebugVerify bool // debugging aid: run the in-repo verifiers after every primitive sub-operation
+	Results           []string
+	RecordResults     bool
+	DebugVerify       bool // debugging aid: run the in-repo verifiers after every primitive sub-operation
 	AllowCommitFaults bool // C14: injected ledger failures are expected and retried
 	// limits (read at start)
 	MaxArrElem, MaxMapElem, MaxMapKey uint32
@@ -176,12 +176,12 @@ func NewEngine(cfg Config, or Oracles) (*Engine, error) {
 		cfg.Workers = 2
 	}
 	e := &Engine{
-		Cfg:      cfg,
-		Or:       or,
-		L:        NewLedger(),
-		CB:       &Callbacks{Groups: cfg.HipGroups},
-		Stats:    newCaseStats(),
-		keyCache: map[uint64]MV{},
+		Cfg:         cfg,
+		Or:          or,
+		L:           NewLedger(),
+		CB:          &Callbacks{Groups: cfg.HipGroups},
+		Stats:       newCaseStats(),
+		keyCache:    map[uint64]MV{},
 		DebugVerify: os.Getenv("VERIF_DEBUG_VERIFY") != "",
 	}
 	e.L.ViaLedgerAPI = cfg.LedgerAPI
